@@ -7,7 +7,8 @@
 (*   "silent"  says nothing more,                                          *)
 (*   "refuse"  (TCP) is not listening at all,                              *)
 (*   "stall"   (TCP) accepts the connection and never writes,              *)
-(*   "close"   (TCP) accepts and closes at once.                           *)
+(*   "close"   (TCP) accepts and closes at once,                           *)
+(*   "blackhole" (TCP) never completes the handshake (full accept queue).  *)
 (* The client, configured with timeout T for connect, read and write and   *)
 (* r retries, performs at most B blocking steps, each bounded by T:        *)
 (*     elapsed <= B * T + slack,          B = (r + 1) * (units left)       *)
@@ -33,12 +34,19 @@ Protos ==
    eco |-> [tr |-> "http", units |-> 1]]
 Names == DOMAIN Protos
 
-Modes(p) == IF Protos[p].tr = "udp" THEN {"silent"} ELSE {"refuse", "stall", "close"}
+Modes(p) == IF Protos[p].tr = "udp" THEN {"silent"} ELSE {"refuse", "stall", "close", "blackhole"}
 \* which timeouts the caller configured: "r" = connect and read (write left unset), "rw" = connect, read and write.
 \* (A read timeout left unset means "block": not a bounded case.)
-TCs(p) == IF Protos[p].tr = "udp" THEN {"r"} ELSE {"r", "rw"}
+\* "default" = the caller passes no settings at all: the documented defaults (4 s each) are the configured timeouts
+TCs(p) == IF Protos[p].tr = "udp" THEN {"r"} ELSE {"r", "rw", "default"}
 Cases == UNION {[p : {p}, ipv : {4, 6}, answered : 0 .. (Protos[p].units - 1), mode : Modes(p), r : Retries, tc : TCs(p)] : p \in Names}
-CaseOk(x) == (x.mode # "silent" => x.answered = 0)
+\* the default timeouts make a case last seconds: they are exercised where they matter (one connect that never completes,
+\* one read that never returns), on one address family, without retries
+CaseOk(x) == /\ (x.mode # "silent" => x.answered = 0)
+             /\ (x.tc = "default" => (x.mode \in {"blackhole", "stall"} /\ x.ipv = 4 /\ x.r = 0 /\ x.p \in {"java", "eco"}))
+             /\ (x.mode = "blackhole" => (x.ipv = 4 /\ x.r = 0 /\ x.p \in {"java", "eco"}))
+\* the timeout that bounds one blocking step of the case, in milliseconds (T = the harness's explicit setting)
+StepMs(x, T) == IF x.tc = "default" THEN 4000 ELSE T
 
 \* blocking steps the client may perform after the server stopped answering (savage2 does not retry; gs3 blocks in the
 \* handshake and in the data phase but a silent server stops it in the first)
@@ -50,13 +58,15 @@ B(x) == (IF x.p = "savage2" THEN 1 ELSE x.r + 1) * Units(x) + Extra(x) + (IF Pro
 Class(x) ==
   CASE Protos[x.p].tr = "http" /\ x.mode \in {"refuse", "close"} -> "anyerror"   \* the HTTP client reports every transport failure as a send failure
     [] x.mode = "refuse" -> "connect"
+    [] x.mode = "blackhole" /\ Protos[x.p].tr = "http" -> "anyerror"
+    [] x.mode = "blackhole" -> "connect"
     [] x.mode = "close" -> "anyerror"             \* the stream ended or was reset: an error of either class, promptly
     [] x.p \in {"valve", "unreal2"} /\ x.answered >= 1 -> "ok-or-timeout"    \* sections set to Try are left out
     [] OTHER -> "timeout"
 
 Init == c \in {x \in Cases : CaseOk(x)} /\ done = FALSE
 Step == /\ ~done /\ done' = TRUE /\ UNCHANGED c
-        /\ Emit => PrintT(<<"CASE", ToJson([c |-> c, tr |-> Protos[c.p].tr, b |-> B(c), class |-> Class(c)])>>)
+        /\ Emit => PrintT(<<"CASE", ToJson([c |-> c, tr |-> Protos[c.p].tr, b |-> B(c), class |-> Class(c), stepms |-> StepMs(c, 200)])>>)
 Spec == Init /\ [][Step]_vars
 
 BPositive == B(c) >= 1
